@@ -33,7 +33,8 @@ const (
 	boNeg   = -4 // negative and not Stop
 	boMax   = -5 // math.MaxInt64 in a configuration where that is not a whole number of units
 
-	boMaxRun  = 6
+	boMaxRun   = 6
+	boMaxSleep = 50 * time.Millisecond
 	soonAfter = time.Hour
 )
 
@@ -148,6 +149,10 @@ type probe struct {
 func (p *probe) NextBackOff() time.Duration {
 	d := p.inner.NextBackOff()
 	*p.log = append(*p.log, d)
+	if d > boMaxSleep {
+		// no configuration makes Retry pause this long; the interval is on record, do not sit it out
+		return backoff.Stop
+	}
 	return d
 }
 
